@@ -58,6 +58,12 @@ def cases(tier, seed):
                     gp = dict(gp, prize_type="const")  # distance-based prizes are undefined (0/0) when every node sits on the depot
                 n_ = rnd.choice([6, 10, 20])
                 out.append(dict(cfg=dict(env=env_, n=n_ + (n_ % 2 if env_ == "pdp" else 0), sampler="|".join(f"{k}={v}" for k, v in sorted(gp.items()) if k not in ("min_loc", "max_loc"))), gp=gp, B=16, s=rnd.randrange(10**6)))
+    # odd requested sizes for the paired problems: the generators document rounding up to the next even number
+    for env_ in ("pdp", "mdcpdp"):
+        for n_ in ((5, 9) if q else (3, 5, 7, 9, 11, 21)):
+            for r in range(reps):
+                extra = dict(reward_mode="lateness", problem_mode="close", dist_mode="L2") if env_ == "mdcpdp" else {}
+                out.append(dict(cfg=dict(env=env_, n=n_, odd=True, **extra), B=8, s=rnd.randrange(10**6)))
     for cfg in envzoo.sched_configs(tier) + [c for c in envzoo.select_configs(tier) if c["env"] in ("flp", "mcp", "dpp", "mdpp")]:
         for r in range(reps * 2):
             out.append(dict(cfg=cfg, B=16, s=rnd.randrange(10**6)))
